@@ -88,7 +88,28 @@ func (c *Ctx) edgeMust(P, rule, fnName, condRe string, truth bool, mustRe string
 		}
 	}
 	if n < minIfs {
-		o.unresolved("%d branches on /%s/ found in %s, expected at least %d: anchors are stale", n, condRe, fnName, minIfs)
+		// the value is still computed but no branch depends on it any more (go/ssa drops
+		// an If whose two successors coincide): its outcome is ignored
+		ignored := false
+		for _, b := range fn.Blocks {
+			for _, ins := range b.Instrs {
+				if v, ok := ins.(ssa.Value); ok && cre.MatchString(desc(v, maxDepth)) {
+					if _, isIf := ins.(*ssa.If); !isIf {
+						ignored = true
+						o.fail(c.A.Pos(ins.Pos()), "%s is computed but only %d branch(es) depend on it (expected %d): its outcome is ignored, so %s is not enforced", desc(v, 6), n, minIfs, mustRe)
+					}
+				}
+				if ignored {
+					break
+				}
+			}
+			if ignored {
+				break
+			}
+		}
+		if !ignored {
+			o.unresolved("%d branches on /%s/ found in %s, expected at least %d: anchors are stale", n, condRe, fnName, minIfs)
+		}
 	}
 	return *o
 }
